@@ -12,6 +12,8 @@ package bigendian
 //@   ensures err == nil ==> n >= 0 && (size < 8 ==> uint64(n) < uint64(1) << (8*uint64(size)))
 //@   ensures err == nil ==> len(out) == size
 //@   ensures err == nil ==> forall i int :: 0 <= i && i < size ==> out[i] == byte(n >> (8*uint64(size-1-i)))
+//@   ensures[low-byte] err == nil && size >= 1 ==> out[size-1] == byte(n)
+//@   ensures err == nil ==> fresh(out)
 //@   ensures err != nil ==> n < 0 || (size < 8 && uint64(n) >= uint64(1) << (8*uint64(size)))
 //@   assigns nothing
 //@   loop 0:
